@@ -25,7 +25,7 @@ func (bp *ByteArrayPool) Alloc() []byte {
 	}
 	r := bp.pool[n-1]
 	bp.pool = bp.pool[0 : n-1]
-	vt("pool.alloc", bp, &r[0])
+	vt("pool.alloc", bp, r)
 	return r
 }
 
@@ -43,5 +43,5 @@ func (bp *ByteArrayPool) Free(b []byte) {
 	if n <= 0 || n < bp.maxCap {
 		bp.pool = append(bp.pool, b)
 	}
-	vt("pool.free", bp, &b[0])
+	vt("pool.free", bp, b)
 }
